@@ -17,13 +17,25 @@ def replay(prop, path):
     """Re-run a recorded counterexample against the real interpreter built from /repo's current tree."""
     import re
     text = open(path).read()
-    m = re.search(r"### PROGRAM\n(.*?)\n### (VARIANT|NATIVE)", text, re.S)
+    m = re.search(r"### PROGRAM\n(.*?)\n### (VARIANT|NATIVE|EXPECT)", text, re.S)
     if not m:
         print(text)
         print("(this replay file holds a Kani concrete-playback test; run the property check to regenerate and execute it)")
         return 0
     from nlv.nlsym import driver
     nat = driver.Native()
+    if "### EXPECT SyntaxError" in text:
+        try:
+            src = re.search(r"### PROGRAM\n(.*?)\n### EXPECT", text, re.S).group(1)
+            j = nat.eval_one(src)
+            kind = ((j.get("result") or {}).get("error") or {}).get("kind")
+            ok = kind != "SyntaxError" or bool(j.get("output"))
+            print("program:", src)
+            print("native:", j)
+            print("REPRODUCED" if ok else "not reproduced on the current tree")
+            return 1 if ok else 0
+        finally:
+            nat.close()
     try:
         f = driver.Finding("replay", "", m.group(1), "")
         mv = re.search(r"### VARIANT\n(.*?)\n### NATIVE", text, re.S)
